@@ -92,19 +92,24 @@ type upCall struct {
 
 type bCfg struct {
 	fps, bucketS, refillS, minS int
+	refillMs                    int // min-refill need not be a whole number of seconds
 }
 
 func (c bCfg) C() float64   { return float64(c.bucketS * c.fps) }
 func (c bCfg) M() int       { return c.minS * c.fps }
-func (c bCfg) rho() float64 { return float64(c.minS*c.fps) / float64(c.refillS) }
+func (c bCfg) rho() float64 { return float64(c.minS*c.fps) / c.refill().Seconds() }
+func (c bCfg) refill() time.Duration {
+	return time.Duration(c.refillS)*time.Second + time.Duration(c.refillMs)*time.Millisecond
+}
 
 func runB(r *verifsim.Run) {
 	var c bCfg
 	c.fps = r.OneOf(1, 2, 3, 5, 9, 9, 25, 60)
 	c.bucketS = r.OneOf(1, 2, 3, 5, 10, 30, r.Range(1, 60), r.Range(60, 1200))
 	c.refillS = r.OneOf(1, 2, 5, 20, 60, r.Range(1, 120), r.Range(120, 3600))
+	c.refillMs = r.OneOf(0, 0, 0, 100, 500, 900, r.Range(1, 999))
 	c.minS = r.OneOf(1, 2, 3, 5, 10, r.Range(1, 20))
-	r.Set("cfg", fmt.Sprintf("fps%d bucket%ds refill%ds minclip%ds (C=%v frames, M=%d frames, rate %.4f frames/s)", c.fps, c.bucketS, c.refillS, c.minS, c.C(), c.M(), c.rho()))
+	r.Set("cfg", fmt.Sprintf("fps%d bucket%ds refill%v minclip%ds (C=%v frames, M=%d frames, rate %.4f frames/s)", c.fps, c.bucketS, c.refill(), c.minS, c.C(), c.M(), c.rho()))
 	cam := zz.Cam{W: 2, H: 2, Fps: c.fps}
 	clock := &zz.SimClock{T: time.Date(2021, 3, 14, 0, 0, 0, 0, time.UTC)}
 	start := clock.T
@@ -115,7 +120,7 @@ func runB(r *verifsim.Run) {
 		}
 	}
 	lis := &countListener{}
-	tc := &config.ThermalThrottler{Activate: true, BucketSize: time.Duration(c.bucketS) * time.Second, MinRefill: time.Duration(c.refillS) * time.Second}
+	tc := &config.ThermalThrottler{Activate: true, BucketSize: time.Duration(c.bucketS) * time.Second, MinRefill: c.refill()}
 	thr := NewThrottledRecorderWithClock(base, tc, c.minS, lis, clock, cam)
 
 	var ups []upCall
